@@ -49,7 +49,7 @@ MACROS = ['nat_eval', 'int_eval', 'int_const_ineq', 'real_eval', 'real_const_eq'
 
 
 def bounds(tier):
-    return {'macros': MACROS + ['real_eq_comparison'], 'ground_goals': 'depth-1 sides exhaustively; casts of_nat / of_int of every depth-1 expression against -4..4; huge and near-equal constants (2^53 + 1 vs 2^53, 1 + 1/10^20 vs 1, ...) in both orders with all relations; depth-2 sides %d seeded goals per type' % (900 if tier == 'quick' else 40000),
+    return {'macros': MACROS + ['real_eq_comparison'], 'ground_goals': 'depth-1 sides exhaustively; casts of_nat / of_int of every depth-1 expression against -4..4; Pre / abs / max / min around depth-1 expressions, wrapped once (+1, Suc, square, 2 - .), against small numerals; huge and near-equal constants (2^53 + 1 vs 2^53, 1 + 1/10^20 vs 1, ...) in both orders with all relations; depth-2 sides %d seeded goals per type' % (900 if tier == 'quick' else 40000),
             'poly_goals': 400 if tier == 'quick' else 8000, 'fp_templates': FP_TEMPLATES, 'fp_numeral_bits': 8, 'fp_timeout_s': 30 if tier == 'quick' else 400, 'fp_solvers': 'z3 5.1 and cvc5 1.0.3 binaries concurrently, first definitive answer', 'fp_queries': 'quick: template 0 all relations, template 1 < >, template 3 <; thorough: all'}
 
 
@@ -191,6 +191,39 @@ def cast_exprs(Tn):
     return _E[key]
 
 
+def fun_exprs(Tn):
+    """Ground expressions built with library functions an evaluator may or may not know (Pre, max, min, abs) around depth-1
+    expressions, wrapped once more (+1, Suc, square, 2 - .): (expressions, numerals to compare with)."""
+    key = ('fun', Tn)
+    if key in _E:
+        return _E[key]
+    from kernel.type import NatType, IntType, RealType, TFun
+    from kernel import term as T
+    from kernel.term import Number, Const
+    ty = {'nat': NatType, 'int': IntType, 'real': RealType}[Tn]
+    N = lambda v: Number(ty, v)
+    base = exprs(Tn, 1)
+    small = exprs(Tn, 0) + [T.minus(ty)(N(1), N(2)), T.minus(ty)(N(3), N(1)), T.times(ty)(N(2), N(2))]
+    F = []
+    if Tn == 'nat':
+        pre = Const('Pre', TFun(ty, ty))
+        F += [pre(a) for a in base] + [pre(pre(a)) for a in small]
+    else:
+        ab = Const('abs', TFun(ty, ty))
+        F += [ab(a) for a in base]
+    for nm in ('max', 'min'):
+        f = Const(nm, TFun(ty, ty, ty))
+        F += [f(a, b) for a in small for b in small]
+    out = []
+    for f in F:
+        out += [f, T.plus(ty)(f, N(1)), T.times(ty)(f, f), T.minus(ty)(N(2), f)]
+        if Tn == 'nat':
+            out.append(Const('Suc', TFun(ty, ty))(f))
+    nums = [N(k) for k in (range(0, 4) if Tn == 'nat' else range(-2, 4))]
+    _E[key] = (out, nums)
+    return _E[key]
+
+
 def near_exprs(Tn):
     """Huge and near-equal constants: pairs (a, b) whose difference is far below the resolution of IEEE doubles."""
     key = ('near', Tn)
@@ -222,6 +255,18 @@ def run_ground(u, out):
                     for m in MACROS:
                         check_goal(m, goal, out, {'part': 'ground', 'type': Tn, 'depth': 'near', 'i': i, 'j': swap, 'rel': r, 'macro': m})
         out['samples'].append({'goal': str(mk_goal('eq', prs[0][0], prs[0][1])), 'macros': 'all %d' % len(MACROS)})
+        return
+    if mode == 'fun':
+        es, nums = fun_exprs(Tn)
+        for i in range(lo, min(hi, len(es))):
+            for j, c in enumerate(nums):
+                for r in ('eq', 'less', 'less_eq'):
+                    goal = mk_goal(r, es[i], c)
+                    for m in MACROS:
+                        check_goal(m, goal, out, {'part': 'ground', 'type': Tn, 'depth': 'fun', 'i': i, 'j': j, 'rel': r, 'macro': m})
+            if len(out['cex']) >= 30:
+                break
+        out['samples'].append({'goal': str(mk_goal('eq', es[lo], nums[0])), 'macros': 'all %d' % len(MACROS)})
         return
     if mode == 'cast':
         casts, nums = cast_exprs(Tn)
@@ -697,6 +742,10 @@ def units(tier, seed):
         nc = len(cast_exprs(Tn)[0])
         for lo in range(0, nc, 8):
             us.append(('ground', tier, seed, Tn, 'cast', lo, lo + 8))
+    for Tn in ('nat', 'int', 'real'):
+        nf = len(fun_exprs(Tn)[0])
+        for lo in range(0, nf, 60):
+            us.append(('ground', tier, seed, Tn, 'fun', lo, lo + 60))
     total = 400 if tier == 'quick' else 8000
     for lo in range(0, total, 50):
         us.append(('poly', tier, seed, lo, lo + 50))
@@ -740,6 +789,9 @@ def replay(c):
     elif c['depth'] == 'cast':
         casts, nums = cast_exprs(c['type'])
         goal = mk_goal(c['rel'], casts[c['i']], nums[c['j']])
+    elif c['depth'] == 'fun':
+        es, nums = fun_exprs(c['type'])
+        goal = mk_goal(c['rel'], es[c['i']], nums[c['j']])
     else:
         es = exprs(c['type'], c['depth'])
         goal = mk_goal(c['rel'], es[c['i']], es[c['j']])
